@@ -234,6 +234,135 @@ def validation_chain_rules(prog, chk, pid):
         chk.ok(P("validation-switch-off-sites"), "whole program", "no call binds validate_point/verify to False", "", "validation cannot be bypassed")
 
 
+def _ndigits_width(order: int) -> int:
+    return 2 * ((len("%x" % order) + 1) // 2)
+
+
+def dh_secret_rules(prog, chk, pid):
+    """the shared secret handed to SHA-256 is the x coordinate of d*Q encoded with the FIXED width of the field prime"""
+    import re as _re
+
+    P = lambda s: "%s.%s" % (pid, s)
+    ECDHQ = "register_crypto_plugin.ecdsa.ecdh.ECDH"
+    UTIL = "register_crypto_plugin.ecdsa.util"
+    # ---- plug-in: secret = ECDH(curve).generate_sharedsecret_bytes(), peer key loaded through the validating DER loader
+    fi = prog.method("register_crypto_plugin.PrivateEccKeyProxy", "compute_dh_secret")
+    where = "%s:%d" % (fi.file, fi.lineno)
+    ex = Exec(prog, policy=lambda e, f, d: False)
+    res = ex.run(fi)
+    news = [e for e in res.events if e.kind == "new" and e.d["cls"].qualname == ECDHQ]
+    calls = [e for e in res.events if e.kind == "call" and e.d["callee"].qualname.startswith(ECDHQ + ".") and e.d["callee"].name != "__init__"]
+    ok = len(news) == 1 and res.ret is not None and not res.dead
+    why = "expected exactly one ECDH object"
+    if ok:
+        obj = news[0].d["result"]
+        curve = news[0].d["kwargs"].get("curve") or (news[0].d["args"][0] if news[0].d["args"] else None)
+        ok = curve is not None and "CURVE" in show(curve, 3)
+        why = "ECDH object is not bound to the proxy's CURVE"
+    if ok:
+        last = [c for c in calls if unsnap(res.ret) is unsnap(c.d["result"])]
+        ok = len(last) == 1 and last[0].d["callee"].name == "generate_sharedsecret_bytes" and unsnap(last[0].d["recv"]) is unsnap(obj)
+        why = "returned value is not ecdh.generate_sharedsecret_bytes() (the fixed-width encoding of the shared x coordinate)"
+    if ok:
+        pubs = [c for c in calls if c.d["callee"].name.startswith("load_received_public_key") and c.uid < last[0].uid]
+        ok = len(pubs) == 1 and pubs[0].d["callee"].name == "load_received_public_key_der"
+        if ok:
+            a = unsnap(pubs[0].d["args"][-1])
+            mc = meth_call(a)
+            ok = mc is not None and mc[1] == "to_der_fmt" and unsnap(mc[0]).op == "param" and unsnap(mc[0]).args[0] == fi.params[1]
+        why = "peer public key is not loaded by load_received_public_key_der(public_key.to_der_fmt()) (validating loader)"
+    if ok:
+        privs = [c for c in calls if c.d["callee"].name.startswith("load_private_key") and c.uid < last[0].uid]
+        via_ctor = news[0].d["kwargs"].get("private_key")
+        src = None
+        if len(privs) == 1:
+            src = show(privs[0].d["args"][-1], 4)
+        elif via_ctor is not None and not privs:
+            src = show(via_ctor, 4)
+        ok = src is not None and "self.private_key" in src and "public" not in src
+        why = "own private key is not the proxy's self.private_key"
+    chk.require(ok, P("dh-secret-plugin"), fi.qualname, "ECDH(CURVE) <- self.private_key, public_key.to_der_fmt(); return generate_sharedsecret_bytes()", where,
+                "the DH secret is the fixed-width byte string produced by ECDH.generate_sharedsecret_bytes for (own private key, validated peer key)", why)
+    # ---- ECDH.generate_sharedsecret_bytes = number_to_string(generate_sharedsecret(), p)
+    fb = prog.method(ECDHQ, "generate_sharedsecret_bytes")
+    ex = Exec(prog, policy=lambda e, f, d: False)
+    rb = ex.run(fb)
+    calls = [e for e in rb.events if e.kind == "call"]
+    n2s = [c for c in calls if c.d["callee"].qualname == UTIL + ".number_to_string"]
+    ok = len(n2s) == 1 and rb.ret is not None and unsnap(rb.ret) is unsnap(n2s[0].d["result"])
+    why = "result is not number_to_string(...)"
+    if ok:
+        a0, a1 = [unsnap(x) for x in n2s[0].d["args"][:2]]
+        gs = [c for c in calls if c.d["callee"].name == "generate_sharedsecret" and unsnap(c.d["result"]) is a0]
+        ok = len(gs) == 1
+        why = "encoded number is not self.generate_sharedsecret()"
+        if ok:
+            mc = meth_call(a1)
+            txt = show(a1, 8)
+            ok = mc is not None and mc[1] in ("p",) and not mc[2] and ".curve" in show(mc[0], 6) and "self" in txt
+            why = "width is not taken from the field prime curve.p() of the object's own key/curve (%s)" % txt[:60]
+    chk.require(ok, P("dh-secret-bytes"), fb.qualname, "number_to_string(self.generate_sharedsecret(), <own curve>.p())", "%s:%d" % (fb.file, fb.lineno),
+                "the shared x coordinate is encoded with the byte length of the field prime", why)
+    # ---- generate_sharedsecret / _get_shared_secret : x coordinate of peer_point * own_secret, INFINITY refused
+    fg = prog.method(ECDHQ, "generate_sharedsecret")
+    ex = Exec(prog, policy=lambda e, f, d: f.qualname == ECDHQ + "._get_shared_secret")
+    rg = ex.run(fg)
+    rets = [e for e in rg.events if e.kind == "return" and e.stack and e.stack[-1] == ECDHQ + "._get_shared_secret"]
+    ok = bool(rets) and rg.ret is not None
+    why = "no return from _get_shared_secret"
+    mult = None
+    for r in rets:
+        mc = meth_call(unsnap(r.d["value"]))
+        if not (mc and mc[1] == "x" and not mc[2]):
+            ok, why = False, "shared secret is not <point>.x()"
+            break
+        pt = unsnap(mc[0])
+        if not (pt.op == "bin" and pt.args[0] == "Mult"):
+            ok, why = False, "shared point is not a scalar multiple"
+            break
+        l, rr = show(pt.args[1], 6), show(pt.args[2], 6)
+        both = l + " | " + rr
+        if not ("pubkey.point" in both and "privkey.secret_multiplier" in both and "self.private_key" in both and ("self.public_key" in both or "remote_public_key" in both)):
+            ok, why = False, "shared point is not peer.pubkey.point * self.private_key.privkey.secret_multiplier (%s)" % both[:80]
+            break
+        mult = pt
+    if ok:
+        gsx = [g for g in rg.events if g.kind == "guard" and g.d.get("term") == "raise" and "InvalidSharedSecretError" in str(g.d.get("exc"))]
+        ok = any("INFINITY" in show(g.d["cond"], 5) and all(dominates(g, r) for r in rets) for g in gsx)
+        why = "the point at infinity is not refused before its x coordinate is taken"
+    if ok:
+        # the argument handed in is the stored peer key
+        top = [e for e in rg.events if e.kind == "call" and e.d["callee"].name == "_get_shared_secret"]
+        ok = len(top) == 1 and "self.public_key" in show(top[0].d["args"][-1], 4)
+        why = "generate_sharedsecret does not use the received public key"
+    chk.require(ok, P("dh-secret-x"), fg.qualname, "(peer.pubkey.point * own.privkey.secret_multiplier).x(), INFINITY -> InvalidSharedSecretError", "%s:%d" % (fg.file, fg.lineno),
+                "the number encoded is the affine x coordinate of d*Q", why)
+    # ---- number_to_string is fixed width: "%0<2*ceil(hexdigits/2)>x" for every order, plus the length assertion
+    fn = prog.func(UTIL + ".number_to_string")
+    primes = {"P-256 p": 0xFFFFFFFF00000001000000000000000000000000FFFFFFFFFFFFFFFFFFFFFFFF, "P-256 n": 0xFFFFFFFF00000000FFFFFFFFFFFFFFFFBCE6FAADA7179E84F3B9CAC2FC632551,
+              "P-521 p": (1 << 521) - 1, "P-192 p": (1 << 192) - (1 << 64) - 1, "0xff": 0xFF, "0x100": 0x100, "0xfff": 0xFFF}
+    bad = []
+    for nm, order in primes.items():
+        exn = Exec(prog, policy=lambda e, f, d: f.module.name == UTIL)
+        rn = exn.run(fn, args={fn.params[1]: C(order)})
+        good = False
+        if rn.ret is not None:
+            bc = builtin_call(unsnap(rn.ret))
+            if bc and bc[0].endswith("unhexlify") and len(bc[1]) == 1:
+                inner = unsnap(bc[1][0])
+                mc = meth_call(inner)
+                if mc and mc[1] == "encode":
+                    inner = unsnap(mc[0])
+                if inner.op == "bin" and inner.args[0] == "Mod" and is_const(inner.args[1]) and isinstance(cval(inner.args[1]), str):
+                    m = _re.fullmatch(r"%0(\d+)x", cval(inner.args[1]))
+                    num = unsnap(inner.args[2])
+                    good = bool(m) and int(m.group(1)) == _ndigits_width(order) and num.op == "param" and num.args[0] == fn.params[0]
+        if not good:
+            bad.append(nm)
+    chk.require(not bad, P("number-to-string-fixed-width"), fn.qualname, "unhexlify(('%%0%dx' %% num)) for P-256; %d moduli evaluated" % (64, len(primes)), "%s:%d" % (fn.file, fn.lineno),
+                "numbers are zero-padded to exactly the byte length of the modulus (leading zero bytes are kept)", "encoding is not the zero-padded fixed-width hex form for %s" % bad)
+
+
 def show_rel_safe(d) -> str:
     from bfsa.guard import show_rel
 
@@ -254,4 +383,5 @@ def run(prog, chk, tier):
     published_key_rules(prog, chk, "C09")
     header_rules(prog, chk, "C09")
     validation_chain_rules(prog, chk, "C09")
-    chk.assume("ECDH.generate_sharedsecret_bytes returns the x coordinate of d*Q as 32 big-endian bytes (C17 clauses); SHA-256 and AES as in C16")
+    dh_secret_rules(prog, chk, "C09")
+    chk.assume("point multiplication computes d*Q on P-256 (C17 clauses); SHA-256 is hashlib's; AES as in C16")
